@@ -23,6 +23,7 @@ INVARIANT ExclusionEnds
 INVARIANT BackoffBeforeRetry
 INVARIANT NextAddressOnce
 INVARIANT NotStuck
+INVARIANT AuthEndsRetries
 INVARIANT NoAttemptAfterShutdown
 INVARIANT WaiterAttached
 PROPERTY StaleLossHarmless
